@@ -188,6 +188,16 @@ def run_kernel(k: dict, tier: str, scratch: str) -> dict:
                 return out
             rec["verdict"] = "counterexample"
             rec["counterexample"] = args
+            if k.get("public"):
+                # confirm through the public API on the unpatched code (no CrossHair, no kernel shims)
+                pub = getattr(importlib.import_module(k["_module"]), k["public"])
+                ok2, text2 = pub(*args)
+                out["replays"] += 1
+                if ok2:
+                    out["errors"].append(f"kernel {k['name']} bound {N}: counterexample {args} ({text}) is not visible through the public API ({text2}); kernel precondition too weak")
+                    rec["verdict"] = "not-public"
+                    return out
+                text = text2
             desc = k.get("describe", "{name}{args}: {text}; expected: {post}")
             payload = {
                 "kind": "kernel", "module": k["_module"], "kernel": k["name"], "bound": N, "args": args,
@@ -243,6 +253,8 @@ def replay_kernel(payload: dict):
         ks = {k["name"]: k for k in load_kernels(payload["module"])}
         k = ks[payload["kernel"]]
         ok, text, _ = concrete_check(k, payload["bound"], payload["args"], scratch)
+        if k.get("public"):
+            ok, text = getattr(importlib.import_module(k["_module"]), k["public"])(*payload["args"])
         return ok, f"kernel {k['name']}{tuple(payload['args'])}: {text}; postcondition: {k['post']}", {"text": text}
     finally:
         shutil.rmtree(scratch, ignore_errors=True)
